@@ -86,7 +86,9 @@ ParamsOf(task) ==
                        [name |-> "z", value |-> Int_(zv), default |-> <<Int_(1)>>, ignore |-> FALSE, dpd |-> TRUE]>>
     [] task = "f" -> <<[name |-> "v", value |-> Int_(7), default |-> <<Int_(0)>>, ignore |-> TRUE, dpd |-> FALSE],
                        [name |-> "z", value |-> Int_(zv), default |-> <<Int_(1)>>, ignore |-> FALSE, dpd |-> TRUE]>>
-    [] task = "h" -> <<[name |-> "s", value |-> [t |-> "rstr", v |-> "{A}/s"], default |-> <<>>, ignore |-> FALSE, dpd |-> FALSE]>>
+    \* (pth is declared dtype=Path, s dtype=str: the key text keeps the placeholder form whatever the value is converted to)
+    [] task = "h" -> <<[name |-> "pth", value |-> [t |-> "rstr", v |-> "{A}/p"], default |-> <<>>, ignore |-> FALSE, dpd |-> FALSE],
+                       [name |-> "s", value |-> [t |-> "rstr", v |-> "{A}/s"], default |-> <<>>, ignore |-> FALSE, dpd |-> FALSE]>>
     [] OTHER -> <<>>
 \* inputs in the order of their full names
 InputsOf(task) == CASE task = "b" -> <<<<"a", "a">>>> [] task = "c" -> <<<<"a", "a">>, <<"g:b", "b">>>>
